@@ -411,7 +411,7 @@ def gen_exact_recipe(rng, families=None, small=True):
 
 from gpytorch import variational as V  # noqa: E402
 
-VAR_STRATEGIES = ["vs", "vs", "unwhitened", "batch_decoupled", "orth_decoupled", "ciq", "grid_interp", "lmc", "indep_mt"]
+VAR_STRATEGIES = ["vs", "vs", "unwhitened", "batch_decoupled", "orth_decoupled", "ciq", "grid_interp", "lmc", "indep_mt", "nn"]
 VAR_DISTS = ["cholesky", "meanfield", "delta", "natural", "tril_natural"]
 
 
@@ -454,6 +454,9 @@ class ZooSVGP(gpytorch.models.ApproximateGP):
         elif strat == "grid_interp":
             gs = recipe["grid_size"]
             vs = V.GridInterpolationVariationalStrategy(self, gs, [(-0.2, 1.2)] * d, dist(recipe["dist"], gs**d))
+        elif strat == "nn":
+            # nearest-neighbour strategy: the inducing points are a constructor argument (not part of the state_dict)
+            vs = V.NNVariationalStrategy(self, z, V.MeanFieldVariationalDistribution(m), k=recipe.get("k", 2), training_batch_size=m)
         elif strat == "lmc":
             base = V.VariationalStrategy(self, z, vd, learn_inducing_locations=learn)
             vs = V.LMCVariationalStrategy(base, num_tasks=recipe["tasks"], num_latents=lat, latent_dim=-1)
@@ -531,6 +534,11 @@ def gen_variational_recipe(rng, strategies=None):
         r["dist"] = "delta"
     if strat == "ciq":
         r["dist"] = rng.choice(["natural", "cholesky", "meanfield"])
+    if strat == "nn":
+        r["dist"] = "meanfield"
+        r["m"] = rng.randint(4, 6)
+        r["k"] = rng.choice([2, 3])
+        r["learn_z"] = False
     if strat == "grid_interp":
         r["grid_size"] = rng.choice([4, 5]) if r["d"] == 1 else 4
         r["dist"] = rng.choice(["cholesky", "meanfield"])
